@@ -23,9 +23,7 @@ use std::collections::{BTreeMap, HashMap};
 use std::sync::{Arc, Mutex};
 use std::time::Duration;
 
-/// which variant of the rotator /repo currently has (sent to the model in every op line):
-/// false = pinned tree (rotate() drops the writer unsynced), true = after the central fix.
-pub const CODE_SYNCS_BEFORE_DROP: bool = false;
+use crate::cfg::{CODE_SYNCS_BEFORE_DROP, CODE_WAL_FORMAT};
 
 #[derive(Clone, Debug, PartialEq)]
 pub enum Outcome {
@@ -278,7 +276,7 @@ fn recover_ids(img: &[(String, Vec<u8>)], by_data: &HashMap<Vec<u8>, u64>, max: 
 }
 
 fn op_line(wl: &Workload) -> String {
-    let mut s = format!("G {} {} {} F {}", CODE_SYNCS_BEFORE_DROP as u8, wl.max_size, wl.max_entries, wl.faults.len());
+    let mut s = format!("G {} {} {} {} F {}", CODE_SYNCS_BEFORE_DROP as u8, CODE_WAL_FORMAT, wl.max_size, wl.max_entries, wl.faults.len());
     for (i, o) in &wl.faults {
         s.push_str(&format!(" {} {}", i, o.show()));
     }
@@ -429,16 +427,22 @@ pub fn run(a: &Args) {
     let mut out = Out::new(&a.out);
     let mut rng = Rng::new(a.seed);
     let mut next_id = 0u64;
-    // fixed corpus (DESIGN.md §6.1): one entry per file, one burst of 3 writers, a single fsync
+    // fixed corpus (DESIGN.md §6.1; both were defects of the pinned tree, repaired by the `fix:` commit
+    // "WAL rotator fsyncs a writer before dropping it": they must PASS now — the oracle below is
+    // unconditional): one entry per file, one burst of 3 writers
     {
         let g: Vec<W> = (1..=3).map(|i| mk_write(i, i, 1)).collect();
         let wl = Workload { max_size: 17, max_entries: 8, faults: vec![], groups: vec![g] };
+        let before = out.oracle.len();
         run_workload(&wl, &mut out, "corpus:batch-straddles-rotation");
+        out.count(if out.oracle.len() == before { "corpus:batch-straddles-rotation:pass" } else { "corpus:batch-straddles-rotation:FAIL" });
         // an append error in the middle of a batch: the earlier entry of the batch is acked Ok
         // although its file is never fsynced (calls: create, header, entry 1, entry 2 <- fails)
         let g: Vec<W> = (4..=5).map(|i| mk_write(i, i, 1)).collect();
         let wl = Workload { max_size: 1 << 20, max_entries: 8, faults: vec![(3, Outcome::Fail)], groups: vec![g] };
+        let before = out.oracle.len();
         run_workload(&wl, &mut out, "corpus:append-error-then-sync-ok");
+        out.count(if out.oracle.len() == before { "corpus:append-error-then-sync-ok:pass" } else { "corpus:append-error-then-sync-ok:FAIL" });
         next_id = 5;
     }
     for _ in 0..a.n {
